@@ -122,8 +122,10 @@ Remember ==
 
 RInit == Init /\ a = InitState(TT) /\ h = H0 /\ bad = {}
 RNext == /\ Next
-         /\ LET r == Run(a, Events, {}) IN a' = r[1] /\ bad' = r[2]
-         /\ h' = Remember
+         /\ IF pc = "done"          \* CallAgain: a new call is judged from the initial abstract state, like any call
+            THEN a' = InitState(TT) /\ bad' = {} /\ h' = H0
+            ELSE /\ LET r == Run(a, Events, {}) IN a' = r[1] /\ bad' = r[2]
+                 /\ h' = Remember
 RSpec == RInit /\ [][RNext]_rvars
 
 \* every behaviour of the mechanism is a behaviour of Layer A: no property-level clause fails
